@@ -111,6 +111,8 @@ def consume(E, st, fid, it_ptr, on_item, on_none, key):
                             pending.append(r[1])
                         else:
                             results.append(r[1:])
+    for r in results:
+        E.end_loops(r[1], lambda k: k == key)
     return results
 
 
@@ -153,6 +155,8 @@ def callback_loop(E, st, fid, closures, key):
                     results.append(('unwind', s2, None))
                 else:
                     pending.append(s2)
+    for r in results:
+        E.end_loops(r[1], lambda k: k == ('cb', fid) + tuple(key))
     return results
 
 
@@ -352,6 +356,45 @@ def m_get_unchecked(E, st, fid, t, args, dest_ty):
     if st.pairs:
         st.log('pairs', tuple((k, E.pairs_complete(st, k), st.pairs.get(k), '') for k in st.pairs))
     return ret(st, ('ref', mut, ('mu', mid, idx)))
+
+
+@model(['core::slice::<impl [T]>::get', 'core::slice::<impl [T]>::get_mut'],
+       'checked element access: Some(&slice[i]) iff i < len of the slice, else None')
+def m_slice_get(E, st, fid, t, args, dest_ty):
+    mut = t['callee']['name'].endswith('_mut')
+    iv = args[1]
+    s = _slice_of(E, st, args[0])
+    if s is None or iv[0] != 'int':
+        tr = _tracked_oslice(E, st, args[0]) if iv[0] == 'int' else None
+        if tr is None:
+            if s is not None:
+                raise Unproven('slice::get with a non-integer index over slot storage')
+            return E.opaque_call(st, fid, t, args, dest_ty)
+        tg, lo, hi, ln = tr
+        idx = E.add_terms(st, lo, iv[1]) if not (isinstance(lo, int) and lo == 0) else iv[1]
+        out = []
+        a = st.fork()
+        a.zone.add_lt(idx, hi)
+        if a.zone.sat:
+            out.append(('ret', a, some(('ref', mut, ('opq', ('elem', tg, idx))))))
+        st.zone.add_le(hi, idx)
+        if st.zone.sat:
+            out.append(('ret', st, NONE))
+        return out
+    mid, lo, hi, _ = s
+    idx = E.add_terms(st, lo, iv[1]) if not (isinstance(lo, int) and lo == 0) else iv[1]
+    out = []
+    a = st.fork()
+    a.zone.add_lt(idx, hi)
+    if a.zone.sat:
+        a.log('at', mid, idx)
+        if a.pairs:
+            a.log('pairs', tuple((k, E.pairs_complete(a, k), a.pairs.get(k), '') for k in a.pairs))
+        out.append(('ret', a, some(('ref', mut, ('mu', mid, idx)))))
+    st.zone.add_le(hi, idx)
+    if st.zone.sat:
+        out.append(('ret', st, NONE))
+    return out
 
 
 @model('core::slice::<impl [T]>::split_at_mut',
@@ -584,6 +627,7 @@ def ad_rev_next(E, st, ptr, v, fid, item_ty=None):
             nb = fresh('p')
             a.zone.add_eq(bk, nb, 1)
             E.store(a, _field_ptr(E, a, ptr, 0), ('sliceit', mid, fr, nb, mut))
+            a.log('adv', mid, nb)
             out.append(('ret', a, some(('ref', mut, ('mu', mid, nb)))))
         st.zone.add_le(bk, fr)
         if st.zone.sat:
